@@ -10,7 +10,7 @@ import (
 )
 
 func init() {
-	register("SW1", "arguments reach the parameter they are named after: at no call are two same-typed arguments crossed over (a variable named like parameter j passed in position i while the variable named like parameter i is passed in position j) — the found-set / filter-set, start / end and key / index pairs of this code base are all same-typed, so the compiler cannot see the swap", ruleSW1)
+	register("SW1", "arguments reach the parameter they are named after: at no call are two same-typed arguments crossed over (a variable named like parameter j passed in position i while the variable named like parameter i is passed in position j) — the found-set / filter-set, start / end and key / index pairs of this code base are all same-typed, so the compiler cannot see the swap; nor is an argument named like one parameter handed to another same-typed parameter while the first receives something else (spec.end, spec.start passed for start, last)", ruleSW1)
 }
 
 func ruleSW1(p *Prog) *RuleResult {
@@ -65,7 +65,7 @@ func ruleSW1(p *Prog) *RuleResult {
 							matched++
 						}
 					}
-					var swaps []string
+					var swaps, onesided []string
 					for i := 0; i < len(call.Args) && i < np; i++ {
 						for j := i + 1; j < len(call.Args) && j < np; j++ {
 							pi, pj := sig.Params().At(i), sig.Params().At(j)
@@ -80,13 +80,31 @@ func ruleSW1(p *Prog) *RuleResult {
 							}
 						}
 					}
-					if len(swaps) == 0 && matched < 2 {
+					// one-sided: an argument named like another same-typed parameter, while that parameter receives
+					// something else (spec.end, spec.start handed to (start, last))
+					for i := 0; i < len(call.Args) && i < np; i++ {
+						for j := 0; j < len(call.Args) && j < np; j++ {
+							if i == j {
+								continue
+							}
+							pi, pj := sig.Params().At(i), sig.Params().At(j)
+							if names[i] == "" || pi.Name() == "" || pj.Name() == "" || pj.Name() == "_" || strings.EqualFold(pi.Name(), pj.Name()) || !types.Identical(pi.Type(), pj.Type()) {
+								continue
+							}
+							if strings.EqualFold(names[i], pj.Name()) && !strings.EqualFold(names[i], pi.Name()) && !strings.EqualFold(names[j], pj.Name()) && len(swaps) == 0 {
+								onesided = append(onesided, fmt.Sprintf("argument %q goes to parameter %q although a parameter %q of the same type exists and receives %q", names[i], pi.Name(), pj.Name(), names[j]))
+							}
+						}
+					}
+					if len(swaps) == 0 && len(onesided) == 0 && matched < 2 {
 						return true
 					}
 					n++
 					c := fmt.Sprintf("%s|call of %s#%d", fn, callee.Name(), n)
 					if len(swaps) > 0 {
 						res.bad(c, p.pos(call.Pos()), "crossed arguments: "+strings.Join(swaps, "; "))
+					} else if len(onesided) > 0 {
+						res.bad(c, p.pos(call.Pos()), "misplaced argument: "+strings.Join(onesided, "; "))
 					} else {
 						res.ok(c, p.pos(call.Pos()), fmt.Sprintf("%d argument(s) named after their parameter", matched))
 					}
